@@ -151,6 +151,9 @@ MUTANTS = [
     ("p1_alias_constant", "bempp_cl/api/space/scalar_spaces.py", "local2global_final[element_index, local_index] = max_dof", "local2global_final[element_index, local_index] = 0", 0, ["C16", "C09"]),
     # ---- algebra / solvers / io / state
     ("product_operand_order", "bempp_cl/api/assembly/boundary_operator.py", "return self._op1.weak_form() * self._op2.strong_form()", "return self._op2.weak_form() * self._op1.strong_form()", 0, ["C14"]),
+    ("boundary_sub_is_add", "bempp_cl/api/assembly/boundary_operator.py", "        return self.__add__(-other)", "        return self.__add__(other)", 0, ["C14"]),
+    ("discrete_neg_positive", "bempp_cl/api/assembly/discrete_boundary_operator.py", "return _ScaledDiscreteOperator(self, -1)", "return _ScaledDiscreteOperator(self, 1)", 0, ["C14"]),
+    ("blocked_mul_operand_order", "bempp_cl/api/assembly/blocked_operator.py", "return ProductBlockedOperator(self, other)", "return ProductBlockedOperator(other, self)", 0, ["C14"]),
     ("product_shape_swapped", "bempp_cl/api/assembly/discrete_boundary_operator.py", "super().__init__(dtype, (op1.shape[0], op2.shape[1]))", "super().__init__(dtype, (op2.shape[0], op1.shape[1]))", 0, ["C14"]),
     ("scaled_dtype_ignores_alpha", "bempp_cl/api/assembly/discrete_boundary_operator.py", "dtype = _np.result_type(op.dtype, type(alpha))", "dtype = op.dtype", 0, ["C14"]),
     ("hash_drops_multipliers", "bempp_cl/api/space/space.py", "        md5_gen.update(self.local_multipliers.tobytes())\n", "", 0, ["C14"]),
